@@ -346,6 +346,11 @@ def qenv(sheps=None, workers=None, stack=None, **kw):
         e["QT_NUM_WORKERS_PER_SHEPHERD"] = str(workers)
     if stack is not None:
         e["QT_STACK_SIZE"] = str(stack)
+    # With the default CPU binding every worker of a shepherd is pinned to that shepherd's processing unit; on
+    # configurations with more workers than CPUs per shepherd (2x2, 1x4, 3x3 ...) the busy-waiting scheduler then
+    # starves the worker that holds the lock (runs of 0.1 s take up to minutes).  The harnesses study the library's
+    # logic, not its binding policy: let the OS place the worker threads (override with QT_AFFINITY=... if needed).
+    e.setdefault("QT_AFFINITY", "0")
     for k, v in kw.items():
         e[k] = str(v)
     return e
